@@ -36,10 +36,10 @@ type PNode struct {
 	// runs where the version it read is odd, so that a cache key drops out of
 	// the computation (the child is released while possibly still cached)
 	// and comes back later.
-	KidOn []int `json:"kid_on,omitempty"`
-	Par    bool       `json:"par,omitempty"`      // evaluate Kids in concurrent goroutines
-	AfterU int        `json:"after_us,omitempty"` // reactive.InvalidateAfter(d)
-	TimerU int        `json:"timer_us,omitempty"` // harness twin of InvalidateAfter with a tracked Cleanup
+	KidOn  []int `json:"kid_on,omitempty"`
+	Par    bool  `json:"par,omitempty"`      // evaluate Kids in concurrent goroutines
+	AfterU int   `json:"after_us,omitempty"` // reactive.InvalidateAfter(d)
+	TimerU int   `json:"timer_us,omitempty"` // harness twin of InvalidateAfter with a tracked Cleanup
 	// Fail maps a root run number to "retry" or "fatal": when this node's
 	// compute function executes as part of that run it returns the error
 	// after doing its reads.
